@@ -219,7 +219,7 @@ Definition run_user (v : variant) (now : Z) (h : Z) (args : list Z) (w : net) : 
        | 1 => rall_step v now x args w
        | 3 =>
            let loop := Z.odd x in let x := x / 2 in
-           let bufsize := x mod 65536 in let x := x / 65536 in
+           let bufsize := x mod 1048576 in let x := x / 1048576 in
            let s := x mod 4096 in let hh := x / 4096 in
            let (w, c0) := run_script_handler v now hh args w in
            match args with
